@@ -143,3 +143,91 @@ def corpus_files():
 def read_corpus(path):
     with open(path, encoding="utf-8") as f:
         return f.read()
+
+
+# ---------------------------------------------------------------------------
+# scale: the same rules on simfiles whose size, not shape, is the point
+# ---------------------------------------------------------------------------
+
+def comma_list(k, width=3):
+    """A one-line timing-style list of k entries ('0.000=120.000,1.000=121.000,...')."""
+    return ",".join(f"{i}.000={120 + i % 7}.{'0' * width}" for i in range(k))
+
+
+def scale_values(thorough=False):
+    """
+    (label, raw value): values whose length - or the place where a metacharacter sits in them - is chosen around
+    the sizes at which line wrapping, block-wise writing, sniffing and buffering usually switch:
+    one-line lists of 7 .. 700 entries (90 .. 11 000 characters), and each of ':', '//', '\\', ';' at every
+    offset in a window before 4096 and 8192 (thorough: also 16384, 65536).
+    """
+    out = []
+    for k in (7, 11, 90, 700):
+        out.append((f"one-line list of {k} entries", comma_list(k)))
+    for n in (4096, 8192) + ((16384, 65536) if thorough else ()):
+        for off in range(n - 10, n + 2):
+            for meta in (":", "//", "\\", ";"):
+                out.append((f"{meta!r} at offset {off}", "a" * off + meta + "b" * 8))
+    return out
+
+
+def scale_models(fmt, thorough=False):
+    """(label, model simfile) for fmt 'sm' | 'ssc': one scale value in each kind of place, many charts, many properties."""
+    out = []
+    head = [("VERSION", "0.83")] if fmt == "ssc" else []
+    notes = "0000\n0000\n0000\n0000" + ("\n" if fmt == "ssc" else "")  # SM chart fields are trimmed on loading
+
+    def chart(desc="d", notes_value=notes, extra_items=()):
+        if fmt == "sm":
+            return {"fields": ["dance-single", desc, "Easy", "1", "0,0,0,0,0", notes_value], "extra": None}
+        return {"items": [("STEPSTYPE", "dance-single"), ("DESCRIPTION", desc)] + list(extra_items) + [("NOTES", notes_value)]}
+
+    for label, v in scale_values(thorough):
+        is_list = label.startswith("one-line")
+        # as the value of the first property / of a timing property / in the chart
+        if fmt == "sm":
+            out.append((f"first property: {label}", {"type": fmt, "items": [("TITLE", v), ("ARTIST", "x")], "charts": [chart()]}))
+        else:
+            out.append((f"first property after VERSION: {label}", {"type": fmt, "items": head + [("TITLE", v), ("ARTIST", "x")], "charts": [chart()]}))
+        if is_list:
+            out.append((f"BPMS / STOPS / BGCHANGES: {label}", {"type": fmt, "items": head + [("TITLE", "t"), ("BPMS", v), ("STOPS", v), ("BGCHANGES", v)], "charts": [chart()]}))
+            if fmt == "ssc":
+                out.append((f"chart BPMS / LABELS: {label}", {"type": fmt, "items": head + [("TITLE", "t")], "charts": [chart(extra_items=[("BPMS", v), ("LABELS", v)])]}))
+        else:
+            out.append((f"note data: {label}", {"type": fmt, "items": head + [("TITLE", "t")], "charts": [chart(notes_value=v)]}))
+            if label.endswith("8190") or label.endswith("4094"):
+                out.append((f"description: {label}", {"type": fmt, "items": head + [("TITLE", "t")], "charts": [chart(desc=v)]}))
+    for n in (17, 130) + ((1100,) if True else ()):
+        out.append((f"{n} charts", {"type": fmt, "items": head + [("TITLE", "t")], "charts": [chart(desc=f"c{i}") for i in range(n)]}))
+    out.append(("400 properties", {"type": fmt, "items": head + [(f"P{i:03d}", f"v{i}") for i in range(400)], "charts": [chart()]}))
+    return out
+
+
+def escape_value(v):
+    out = []
+    i = 0
+    while i < len(v):
+        ch = v[i]
+        if ch in ":;\\":
+            out.append("\\" + ch)
+        elif ch == "/" and i + 1 < len(v) and v[i + 1] == "/":
+            out.append("\\/")
+        else:
+            out.append(ch)
+        i += 1
+    return "".join(out)
+
+
+def model_text(model):
+    """A plain serialization of a model simfile (one parameter per line, values escaped), independent of the library."""
+    lines = []
+    for k, v in model["items"]:
+        lines.append(f"#{k};" if v is None else f"#{k}:{escape_value(v)};")
+    for c in model["charts"]:
+        if model["type"] == "sm":
+            lines.append("#NOTES:" + ":".join(escape_value(x) for x in list(c["fields"]) + list(c["extra"] or [])) + ";")
+        else:
+            lines.append("#NOTEDATA:;")
+            for k, v in c["items"]:
+                lines.append(f"#{k};" if v is None else f"#{k}:{escape_value(v)};")
+    return "\n".join(lines) + "\n"
